@@ -374,13 +374,20 @@ func vfSetup(t *testing.T) *vfPop {
 }
 
 func (p *vfPop) teardown() {
-	for sn := range p.clogged {
-		p.unclog(sn)
-	}
-	for _, vs := range p.sess {
+	for sn, vs := range p.sess {
+		// the drain loop is stopped FIRST (a stuck connection has none): Session.purgeChannels
+		// (`for len(s.send) > 0 { <-s.send }`) must not compete with it for the last queued frame
+		if !p.clogged[sn] {
+			select {
+			case <-vs.done:
+			default:
+				vs.s.stop <- nil
+				<-vs.done
+			}
+		}
+		delete(p.clogged, sn)
 		globals.sessionStore.Delete(vs.s)
 		vs.s.cleanUp(true)
-		<-vs.done
 	}
 	vfQuiet()
 	for _, name := range vfAllTopics() {
